@@ -24,7 +24,7 @@ def gen_case(rng, tier, same_table=False):
     writers = list(tables) if not same_table else [tables[0], tables[0]]
     rng.shuffle(writers)
     for t in writers[:rng.choice([1, 2, 3]) if not same_table else 2]:
-        acts, units = [], []      # units: list of (rows, committed?) in order
+        acts, units, own_reads = [], [], []      # units: list of (rows, committed?) in order
         for _ in range(rng.choice([3, 6, 10])):
             kind = rng.choice(["auto", "auto", "auto", "session", "rollback"])
             n = rng.choice([1, 1, 2])
@@ -42,10 +42,11 @@ def gen_case(rng, tier, same_table=False):
                     acts.append("R"); units.append((rows + rows2, False))
             if rng.random() < 0.3:
                 acts.append("P %d" % rng.randrange(300))
-            if rng.random() < 0.3:
+            if rng.random() < 0.5:
                 acts.append("X! SELECT * FROM %s" % t)
+                own_reads.append((len([a for a in acts if not a.startswith("P ")]) - 1, len(units)))
         scripts.append(" | ".join(acts))
-        meta_threads.append({"role": "writer", "table": t, "units": units})
+        meta_threads.append({"role": "writer", "table": t, "units": units, "own_reads": own_reads})
     for _ in range(rng.choice([1, 2, 3])):
         acts = []
         for _ in range(rng.choice([4, 8, 12])):
@@ -174,11 +175,22 @@ def oracle(case, il):
     for i, (tm, answers) in enumerate(zip(m["threads"], threads)):
         script = case.rust.split(" || ")[1 + i].split(" | ")
         acts = [a for a in script if not a.startswith("P ")]
-        for a, ans in zip(acts, answers):
+        own = dict(tm.get("own_reads", [])) if tm.get("role") == "writer" else {}
+        for ai, (a, ans) in enumerate(zip(acts, answers)):
             if not (a.startswith("X! SELECT * FROM ") or a.startswith("X! SELECT id, v FROM ")):
                 continue
             t = a.split()[-1]
             seen = rows_of(ans)
+            if ai in own and seen is not None and t == tm.get("table") and len(writer_of.get(t, [])) == 1:
+                # the only writer of a table reads it after its own acknowledged commits: every serial order that respects
+                # the thread's own program order shows exactly those
+                must = set(m["initial"][t])
+                for unit, committed in tm["units"][:own[ai]]:
+                    if committed:
+                        must |= set(unit)
+                if seen != must:
+                    return ("client thread %d: after its own acknowledged commits its read of %s misses %s and shows unexpected %s"
+                            % (i, t, sorted(must - seen)[:6], sorted(seen - must)[:6]), 0)
             if seen is None:
                 return ("client thread %d: read of %s answered %s" % (i, t, ans[:80]), 0)
             if not set(m["initial"][t]) <= seen:
